@@ -169,6 +169,7 @@ SHAPE_MODELS = {
     "hierarchy": _shape_model("KHierarchy", Optional[H0], {"type": "Element"}),
     "hierarchyList": _shape_model("KHierarchyList", List[H0], {"type": "Element"}, factory=list),
     "qname": _shape_model("KQNameJ", Optional[_QName], {"type": "Element"}),
+    "compoundIntBool": _shape_model("KCompoundIntBool", List[Union[int, bool]], {"type": "Elements", "choices": ({"name": "n", "type": int}, {"name": "flag", "type": bool})}, factory=list),
 }
 
 SHAPE_VALUES = {
@@ -177,7 +178,7 @@ SHAPE_VALUES = {
     "listOfLeafObj": [{"v": 1}, {"v": 2}], "listOfEmptyObj": [{}], "listOfNull": [None], "anyElementObj": {"qname": "q", "text": "t", "tail": None, "children": [], "attributes": {}},
     "derivedObj": {"qname": "q", "value": 5, "type": None}, "strDict": {"a": "1", "b": "2"}, "nestedList3": [[[1]]],
     "h0Obj": {"a": "p"}, "h1Obj": {"a": "p", "b": "q"}, "h2Obj": {"a": "p", "b": "q", "c": "r"}, "h3Obj": {"a": "p", "b": "q", "c": "r", "d": "s"},
-    "clarkStr": "{urn:q}n", "clarkBrokenStr": "{urn:q",
+    "clarkStr": "{urn:q}n", "clarkBrokenStr": "{urn:q", "boolList": [True, False], "intBoolList": [5, True, 0, False],
     "listOfHObjs": [{"a": "p", "b": "q", "c": "r"}, {"a": "p"}, {"a": "p", "b": "q", "c": "r", "d": "s"}, {"a": "p", "b": "q"}],
 }
 
